@@ -294,7 +294,13 @@ pub fn subs(run: &Arc<Run>) -> Vec<Arc<dyn Sub>> {
                             let bits = [62, 64, 128][(q % 3) as usize];
                             let p = match proof_with(ll, bits, &opts) {
                                 Ok(p) => p,
-                                Err(_) => continue,
+                                Err(e) => {
+                                    // only contexts whose LDE domain exceeds 2^32 - 1 may be refused
+                                    if (1u64 << ll) * b as u64 <= u32::MAX as u64 {
+                                        out.violation("a context inside the documented parameter space cannot be decoded", json!({"queries": q, "blowup": b, "grinding": g, "extension_degree": ext, "field_bits": bits, "log2_trace_length": ll, "error": e}));
+                                    }
+                                    continue;
+                                },
                             };
                             let info = || json!({"queries": q, "blowup": b, "grinding": g, "extension_degree": ext, "field_bits": bits, "log2_trace_length": ll});
                             for conj in [true, false] {
